@@ -1216,8 +1216,22 @@ def oracle_filter_objects(rng, n, stats):
         twin = copy.deepcopy(f)
         calls = []
         hist = []
+        prev_frames = None
         for step in range(rng.randint(2, 4)):
+            if step > 0 and m not in ('EDIT_DISTANCE',) and rng.random() < 0.35:
+                # the caller re-configures the tokenizer the filter holds (not its mode); the pristine copy's tokenizer
+                # gets the same setter call
+                mode0 = ts.obj.get_return_set()
+                how = ts.reconfigure(rng)
+                if ts.last_reconf[0] != 'set_return_set':
+                    getattr(twin.tokenizer, ts.last_reconf[0])(ts.last_reconf[1])
+                    hist.append('tokenizer: ' + how)
+                    stats.hit('oracle.filter_objects.tokenizer_reconfigured')
+                ts.obj.set_return_set(mode0)
             L, R, lk, rk, la, ra = gen_join_frames(rng, ts, stats, nonstring=False)
+            if prev_frames is not None and rng.random() < 0.5:
+                L, R, lk, rk, la, ra = prev_frames         # the strings seen before, possibly under another configuration
+            prev_frames = (L, R, lk, rk, la, ra)
             hcase = {'entry': 'filter-object-history', 'kind': kind, 'filter': d, 'tokenizer': tok_to_case(ts), 'earlier_calls': list(hist),
                      'ltable': frame_to_case(L), 'rtable': frame_to_case(R), 'l_key': lk, 'r_key': rk, 'l_attr': la, 'r_attr': ra}
             op = rng.choice(['tables', 'tables', 'candset', 'pairs'])
